@@ -394,10 +394,11 @@ fn free_running(c: &Config, expected: &BTreeSet<String>, sink: &Sink, a: &Args) 
 fn free_running_inner(c: &Config, expected: &BTreeSet<String>, sink: &Sink) -> u64 {
     let pos = Pos::from_fen(c.fen).unwrap();
     let mut n = 0;
-    // (pool size, microseconds by which read critical sections are stretched)
-    for (size, stretch) in [(1usize, 0u32), (2, 0), (3, 0), (8, 0), (16, 0), (64, 0), (8, 5), (24, 5)] {
+    // (pool size, microseconds by which read critical sections are stretched, stretch only until a writer waits)
+    for (size, stretch, until_writer) in [(1usize, 0u32, false), (2, 0, false), (3, 0, false), (8, 0, false), (16, 0, false), (64, 0, false), (8, 5, false), (24, 5, false), (8, 150, true), (24, 150, true), (64, 150, true)] {
         let pool = rayon::ThreadPoolBuilder::new().num_threads(size).build().unwrap();
         crate::sched::STRETCH_READERS_US.store(stretch, std::sync::atomic::Ordering::Relaxed);
+        crate::sched::STRETCH_UNTIL_WRITER.store(until_writer, std::sync::atomic::Ordering::Relaxed);
         for _rep in 0..(if stretch > 0 { 1 } else { 2 }) {
             let mut ctx = SearchContext::new(c.depth);
             let mut b = build_board(&pos);
